@@ -5,6 +5,8 @@ from core import Record, bits_equal
 
 NAME = "spacing"
 METRICS = ["cityblock", "euclidean", "chebyshev"]
+# further documented pdist metrics: judged by the direct implementation only (no Lean counterpart)
+EXTRA_METRICS = ["sqeuclidean", "seuclidean", "mahalanobis", "canberra"]
 
 
 def close(a, b, tol=1e-9):
@@ -69,7 +71,12 @@ def gen(rng, n_cases):
             ideal, nadir = lo - 2.0, hi + 3.0
         if z and pf is not None and ideal is None and nadir is None and (pf.max(axis=0) < pf.min(axis=0)).any():
             z = False
-        yield {"metric": METRICS[t % 3], "z": bool(z), "ideal": ideal, "nadir": nadir, "pf": pf, "F": F,
+        metric = METRICS[t % 3]
+        if t % 11 == 5 and n <= 40:
+            metric = EXTRA_METRICS[(t // 11) % len(EXTRA_METRICS)]
+        yield {"metric": metric, "z": bool(z), "ideal": ideal, "nadir": nadir, "pf": pf, "F": F,
+               # another indicator with another metric is alive and has just scored the same points
+               "other_metric": METRICS[(t + 1 + rng.randint(2)) % 3] if rng.randint(3) == 0 else None,
                "perm": rng.permutation(n), "shift": np.round(rng.standard_normal(m) * 4) / 4,
                "scale": float(rng.choice([0.5, 2.0, 3.0, 0.25]))}
 
@@ -89,7 +96,7 @@ def _mk(case):
 
 
 def run(case, replay=None):
-    rec = Record(NAME, {"metric": case["metric"], "z": case["z"]},
+    rec = Record(NAME, {"metric": case["metric"], "z": case["z"], "other_metric": case.get("other_metric")},
                  {k: (None if case[k] is None else np.array(case[k], dtype=float)) for k in ("ideal", "nadir", "pf", "F")})
     rec.inp["perm"] = np.array(case["perm"], dtype=int)
     rec.inp["shift"] = np.array(case["shift"], dtype=float)
@@ -97,6 +104,11 @@ def run(case, replay=None):
     F = rec.inp["F"]
     Fc = F.copy()
     try:
+        if case.get("other_metric"):
+            other = _mk(dict(case, metric=case["other_metric"]))
+            other.do(F.copy())
+            other.do(F[rec.inp["perm"]].copy())
+            rec.tags.add("second-indicator-alive")
         ind = _mk(case)
         rec.out["S"] = float(ind.do(Fc))
         rec.out["S_perm"] = float(_mk(case).do(F[rec.inp["perm"]].copy()))
@@ -121,6 +133,8 @@ def _opt(v):
 
 def encode(rec):
     i = rec.inp
+    if rec.cfg["metric"] not in METRICS:
+        raise ValueError("skipped")
     t = [NAME, rec.cfg["metric"], "1" if rec.cfg["z"] else "0"] + _opt(i["ideal"]) + _opt(i["nadir"])
     t += ["none"] if i["pf"] is None else ["some"] + proto.fmat(i["pf"])
     t += proto.fmat(i["F"])
@@ -156,24 +170,70 @@ def reference(F, metric, z, ideal, nadir, pf):
         F = np.where(den == 0, F - ideal, (F - ideal) / np.where(den == 0, 1.0, den))
     n = len(F)
     d = np.empty(n)
+    V = VI = None
+    if metric == "seuclidean":
+        V = F.var(axis=0, ddof=1)
+    if metric == "mahalanobis":
+        VI = np.linalg.inv(np.atleast_2d(np.cov(F.T, ddof=1)))
     for i in range(n):
         best = np.inf
         for j in range(n):
             if j == i:
                 continue
-            diff = np.abs(F[i] - F[j])
-            v = diff.sum() if metric == "cityblock" else diff.max() if metric == "chebyshev" else np.sqrt((diff ** 2).sum())
+            df = F[i] - F[j]
+            diff = np.abs(df)
+            if metric == "cityblock":
+                v = diff.sum()
+            elif metric == "chebyshev":
+                v = diff.max()
+            elif metric == "sqeuclidean":
+                v = (diff ** 2).sum()
+            elif metric == "seuclidean":
+                v = np.sqrt((diff ** 2 / V).sum())
+            elif metric == "mahalanobis":
+                v = np.sqrt(max(float(df @ VI @ df), 0.0))
+            elif metric == "canberra":
+                den = np.abs(F[i]) + np.abs(F[j])
+                v = np.where(den == 0, 0.0, diff / np.where(den == 0, 1.0, den)).sum()
+            else:
+                v = np.sqrt((diff ** 2).sum())
             best = min(best, v)
         d[i] = best
     return float(np.sqrt(((d - d.mean()) ** 2).sum() / n)), d
 
 
+def _extra_metric_defined(metric, F):
+    F = np.array(F, dtype=float)
+    if metric == "seuclidean":
+        return len(F) >= 2 and not (F.var(axis=0, ddof=1) <= 1e-12 * max(1.0, np.abs(F).max() ** 2)).any()
+    if metric == "mahalanobis":
+        if len(F) <= F.shape[1] + 1:
+            return False
+        try:
+            return bool(np.linalg.cond(np.atleast_2d(np.cov(F.T, ddof=1))) < 1e8)
+        except Exception:
+            return False
+    return True
+
+
 def oracle_C20(rec):
+    if rec.cfg["metric"] not in METRICS and (rec.cfg["z"] or not _extra_metric_defined(rec.cfg["metric"], rec.inp["F"])):
+        return list(rec.frames)       # data-dependent metric not defined / badly conditioned on these points
     if rec.err is not None:
         return ["indicator raised: " + rec.err]
     i = rec.inp
     bad = list(rec.frames)
     S = rec.out["S"]
+    metric = rec.cfg["metric"]
+    if metric not in METRICS:
+        # metrics with data-dependent weights: only the value clause, and only where the weights are well conditioned
+        try:
+            ref, d = reference(i["F"], metric, False, None, None, None)
+        except Exception:
+            return bad
+        if not close(S, ref, 1e-7):
+            bad.append("spacing %r differs from the RMS deviation of nearest-neighbour distances %r (%s)" % (S, ref, metric))
+        return bad
     ref, d = reference(i["F"], rec.cfg["metric"], rec.cfg["z"], i["ideal"], i["nadir"], i["pf"])
     if not (S >= 0):
         bad.append("spacing %r is negative or NaN" % S)
@@ -204,6 +264,9 @@ class Spnn:
         for t in range(n_cases):
             n = int(rng.randint(2, 31))
             m = int(rng.randint(1, 6))
+            if t % 100 == 3 and t < 100 * (2 + n_cases // 5000):
+                n = int([1025, 2049, 1100, 4097][(t // 100) % (2 if n_cases <= 5000 else 4)] + rng.randint(0, 40))
+                m = int(rng.randint(2, 4))
             yield {"F": gen_points(rng, n, m)}
 
     @staticmethod
